@@ -99,6 +99,13 @@ pub fn pick_addr(plan: &Plan, rng: &mut Rng, peer: usize, v6: bool, offscope: bo
             let b = rng.bytes(6);
             a.dmac = [b[0] & 0xfe, b[1], b[2], b[3], b[4], b[5]];
             a.note = "foreign-unicast-mac";
+            if let Some(hw) = plan.cfg.iface {
+                if hw != plan.cfg.mac && rng.chance(1, 2) {
+                    // the hardware address of the interface, which is not the configured MAC
+                    a.dmac = hw;
+                    a.note = "interface-hardware-mac";
+                }
+            }
         }
         1 => {
             let bit = rng.below(48) as usize;
@@ -151,6 +158,27 @@ pub fn pick_addr(plan: &Plan, rng: &mut Rng, peer: usize, v6: bool, offscope: bo
                 IpAddr::V4(*rng.pick(&plan.foreign4))
             };
             a.note = "unhandled-ip";
+        }
+        6 => {
+            // a group or broadcast address as IP destination, on the matching (authorised) MAC:
+            // the solicited-node group of a handled address, all-nodes, limited broadcast
+            if v6 {
+                if rng.chance(1, 3) {
+                    a.dst = IpAddr::V6(Ipv6Addr::new(0xff02, 0, 0, 0, 0, 0, 0, 1));
+                    a.dmac = [0x33, 0x33, 0, 0, 0, 1];
+                } else {
+                    let o = match handled {
+                        IpAddr::V6(x) => x.octets(),
+                        _ => [0; 16],
+                    };
+                    a.dst = IpAddr::V6(Ipv6Addr::new(0xff02, 0, 0, 0, 0, 1, 0xff00 | o[13] as u16, ((o[14] as u16) << 8) | o[15] as u16));
+                    a.dmac = [0x33, 0x33, 0xff, o[13], o[14], o[15]];
+                }
+            } else {
+                a.dst = IpAddr::V4(Ipv4Addr::new(255, 255, 255, 255));
+                a.dmac = BROADCAST;
+            }
+            a.note = "group-or-broadcast-ip";
         }
         _ => {
             // group MAC of an address that is not handled
@@ -352,7 +380,15 @@ impl IcmpActor {
                 _ => (target, BROADCAST, "broadcast-mac"),
             };
             let dad = rng.chance(1, 6);
-            let src = if dad { Ipv6Addr::UNSPECIFIED } else { p.ip6 };
+            // mostly the peer's own address; a DAD probe comes from ::, an address conflict (or a
+            // host re-announcing itself) from the very address that is asked about
+            let src = if dad {
+                Ipv6Addr::UNSPECIFIED
+            } else if rng.chance(1, 10) {
+                target
+            } else {
+                p.ip6
+            };
             let mut body = vec![0u8; 4];
             body.extend_from_slice(&o);
             if !dad && rng.chance(2, 3) {
